@@ -207,6 +207,10 @@ class Interp(OpsMixin, BuiltinsMixin):
                 name, expr = spec if isinstance(spec, tuple) else (f"ensures#{k}", spec)
                 goal = self.spec_bool(expr, senv)
                 run.oblige("postcondition", goal, name, self.lineno)
+            if not c.ensures and not c.raises_iff and run.past_prefix:
+                run.x.stats["obligations_generated"] += 1
+                run.x.stats["trivial"] += 1
+                run.x.record_trivial("exception-frame", "normal return (no exception escapes on this path)", self.lineno)
             for ename, cond in c.raises_iff.items():
                 goal = z3.Not(self.spec_bool(cond, senv))
                 run.oblige("postcondition", goal, f"returns-only-if-not({ename} condition)", self.lineno)
